@@ -860,6 +860,38 @@ theorem C08_pure_rbm_pos {hid : ℕ} (am : RBM ℝ n hid) (c : ℕ) :
         ∑ σ, bornPure psi σ * val σ = (expectation psi (neighbourOpenOp c)).re) :=
   C08_pure_states _ (fun σ => (C08_rbm_psi_ne_zero am am σ).1) c
 
+/-- **`SigmaY` on a real wavefunction is identically zero, sample by sample** (late theorem): if `ψ` has zero imaginary part
+everywhere (e.g. `PositiveWaveFunction`), every numerator `ψ(σ^{(i)})·(i·s_i)` is purely imaginary and the denominator `ψ(σ)` is
+real, so the real part `SigmaY.apply` keeps is exactly `0` for every sample (also where `ψ σ = 0`: the model's real division by zero
+gives `0`; the float code gives `nan` there — not reachable for an RBM state, `C08_rbm_psi_ne_zero`). -/
+theorem C08_sigmaY_real_state_zero (psi : Cfg n → C ℝ) (hreal : ∀ σ, (psi σ).2 = 0) (σ : Cfg n) :
+    sigmaYApply (ImpState.pure psi) false σ = 0 := by
+  have hre : (Obs.toC (C.div (C.sum n (fun i => C.mul ((ImpState.pure psi).numer (flipSpin i σ) σ) (0, spin (σ i))))
+      ((ImpState.pure psi).denom σ))).re = 0 := by
+    rw [Obs.toC_div, Obs.toC_sum, Complex.div_re]
+    have h1 : (∑ i, Obs.toC (C.mul ((ImpState.pure psi).numer (flipSpin i σ) σ) (0, spin (σ i)))).re = 0 := by
+      rw [Complex.re_sum]
+      refine Finset.sum_eq_zero (fun i _ => ?_)
+      simp [ImpState.pure, Obs.toC, hreal, C.mul]
+    have h2 : (Obs.toC ((ImpState.pure psi).denom σ)).im = 0 := by
+      simp [ImpState.pure, Obs.toC, hreal]
+    rw [h1, h2]; simp
+  have : (C.div (C.sum n (fun i => C.mul ((ImpState.pure psi).numer (flipSpin i σ) σ) (0, spin (σ i))))
+      ((ImpState.pure psi).denom σ)).1 = 0 := hre
+  simp only [sigmaYApply, absIf, this]
+  simp
+
+/-- … hence for the positive RBM wavefunction every `SigmaY` sample value is `0` and `Re ⟨ψ|M_Y|ψ⟩/⟨ψ|ψ⟩ = 0` (from the
+estimator theorem `C08_pure_rbm_pos`, clause 2: the exact average of the zero function). -/
+theorem C08_sigmaY_pos_zero {hid : ℕ} (am : RBM ℝ n hid) :
+    let psi : Cfg n → C ℝ := fun σ => Wave.psiPos am (fun j => bit (σ j))
+    (∀ σ, sigmaYApply (ImpState.pure psi) false σ = 0) ∧ (expectation psi (magnetOp pauliY)).re = 0 := by
+  intro psi
+  have h0 : ∀ σ, sigmaYApply (ImpState.pure psi) false σ = 0 := C08_sigmaY_real_state_zero psi (fun _ => rfl)
+  refine ⟨h0, ?_⟩
+  rw [← (C08_pure_rbm_pos am 1).2.1]
+  exact Finset.sum_eq_zero (fun σ _ => mul_eq_zero_of_right _ (h0 σ))
+
 
 
 /-! ### Composition with the sampler (C05) and the streaming statistics (C13): unbiased ON THE SAMPLES THE LIBRARY DRAWS
@@ -1110,6 +1142,48 @@ theorem C08_unbiased_statistics_mixed (am ph : PRBM ℝ n hid a) (c B : ℕ) (hB
   obtain ⟨val, hv, he⟩ := h5 hc
   exact ⟨val, hv, (hE _).trans he⟩
 
+/-- **(b) … positive wavefunction** (late theorem; the instance the extension round left open): the same statement as
+`C08_unbiased_statistics` for `ψ_λ = sqrt(p_λ)` (`PositiveWaveFunction`), i.e. `C08_statistics_mean_generic` instantiated with
+`C08_born_stationary` clause 2/5 and `gibbsStepsB_law`, then `C08_pure_rbm_pos`.  `B ≥ 1` chains started i.i.d. from
+`p = ψ_λ²/Σψ_λ²`, threaded through `gibbsStepsB k` with `k = [burn_in, steps, …]`, `T = ⌈num_samples/B⌉` draws: the expectation of
+the mean `statistics` reports is the exact `p`-average of ANY per-sample function, and `⟨ψ|O|ψ⟩/⟨ψ|ψ⟩` for `SigmaX`, `SigmaY`,
+`SigmaZ`, `NeighbourInteraction` periodic / open.  (For `SigmaY` the right-hand side is what `C08_pure_states` gives, the real part
+of `⟨ψ|Y|ψ⟩/⟨ψ|ψ⟩`; that both sides vanish for the real positive `ψ` is `C08_sigmaY_pos_zero`.) -/
+theorem C08_unbiased_statistics_pos (am : RBM ℝ n hid) (c B : ℕ) (hB : 1 ≤ B) (ns burnIn steps T : ℕ) (hns : 1 ≤ ns)
+    (hT : numTimeSteps ns B = .ok T) :
+    let psi : Cfg n → C ℝ := fun σ => Wave.psiPos am (fun j => bit (σ j))
+    let E : (Cfg n → ℝ) → ℝ := fun f => ∑ vs₀ : Fin B → Cfg n, (∏ b, bornPure psi (vs₀ b)) *
+      (drawsProg (fun k => am.gibbsStepsB k) burnIn steps T 0 vs₀).expect
+        (fun sts => C13.mean ((sts.map (batchVals f)).flatten))
+    (∀ f, E f = ∑ σ, bornPure psi σ * f σ)
+    ∧ (E (fun σ => sigmaXApply (ImpState.pure psi) false σ) = (expectation psi (magnetOp pauliX)).re)
+    ∧ (E (fun σ => sigmaYApply (ImpState.pure psi) false σ) = (expectation psi (magnetOp pauliY)).re)
+    ∧ (0 < n → E (fun σ => sigmaZApply false σ) = (expectation psi (magnetOp pauliZ)).re)
+    ∧ (E (fun σ => neighbourPeriodicApply c σ) = (expectation psi (neighbourPeriodicOp c)).re)
+    ∧ (1 ≤ c → ∃ val : Cfg n → ℝ, (∀ σ, neighbourOpenApply c σ = .ok (val σ)) ∧
+        E val = (expectation psi (neighbourOpenOp c)).re) := by
+  intro psi E
+  have q0 : PRBM ℝ n hid 0 := ⟨fun _ _ => 0, fun _ _ => 0, fun _ => 0, fun _ => 0, fun _ => 0⟩
+  have hE : ∀ f, E f = ∑ σ, bornPure psi σ * f σ := fun f =>
+    (C08_statistics_mean_generic (bornPure psi) (C08_born_stationary am am q0 0 (fun _ => false)).2.2.2.2.1
+      (fun k => am.gibbsSteps k) B (fun k => am.gibbsStepsB k) (fun k vs ws => (gibbsStepsB_law am q0 k vs ws).1)
+      (fun k w => (C08_born_stationary am am q0 k w).2.1) f hB ns 0 burnIn steps T hns hT false (fun _ _ => false)).2
+  obtain ⟨h1, h2, h3, h4, h5⟩ := C08_pure_rbm_pos am c
+  refine ⟨hE, (hE _).trans h1, (hE _).trans h2, fun hn => (hE _).trans (h3 hn), (hE _).trans h4, fun hc => ?_⟩
+  obtain ⟨val, hv, he⟩ := h5 hc
+  exact ⟨val, hv, (hE _).trans he⟩
+
+/-- non-vacuity of `C08_unbiased_statistics_pos`: a positive RBM state on two sites (`h = 3`), 3 chains, 7 requested samples
+(= 3 draws), burn-in 5, 2 steps between draws, `NeighbourInteraction(periodic_bcs=True, c=1)`. -/
+example : let am : RBM ℝ 2 3 := ⟨fun i j => (i.val : ℝ) - j.val + 0.5, fun j => if j = 0 then -1.5 else 2,
+      fun i => if i = 0 then 0.7 else -0.3⟩
+    let psi : Cfg 2 → C ℝ := fun σ => Wave.psiPos am (fun j => bit (σ j))
+    ∑ vs₀ : Fin 3 → Cfg 2, (∏ b, bornPure psi (vs₀ b)) *
+      (drawsProg (fun k => am.gibbsStepsB k) 5 2 3 0 vs₀).expect
+        (fun sts => C13.mean ((sts.map (batchVals (fun σ => neighbourPeriodicApply 1 σ))).flatten))
+      = (expectation psi (neighbourPeriodicOp 1)).re :=
+  (C08_unbiased_statistics_pos _ 1 3 (by norm_num) 7 5 2 3 (by norm_num) (by decide)).2.2.2.2.1
+
 /-- non-vacuity: a concrete complex RBM state on two sites (`h = 3 ≠ n`, biases of both signs), 3 chains, 7 requested samples
 (= 3 draws), burn-in 5, 2 steps between draws: the expectation of the reported `SigmaY` mean is `⟨Y⟩`. -/
 example : let am : RBM ℝ 2 3 := ⟨fun i j => (i.val : ℝ) - j.val + 0.5, fun j => if j = 0 then -1.5 else 2,
@@ -1132,6 +1206,75 @@ example : let am : RBM ℝ 2 3 := ⟨fun i j => (i.val : ℝ) - j.val + 0.5, fun
     ∑ v₀, bornPure psi v₀ * (am.gibbsSteps 4 v₀).expect (fun σ => sigmaXApply (ImpState.pure psi) false σ)
       = (expectation psi (magnetOp pauliX)).re :=
   (C08_unbiased_stationary _ _ 4 1).2.1
+
+/-! #### (c) `absolute=True` (late theorem) -/
+
+/-- stationary expectation of the `absolute=True` values, any stationary kernel, any state: by `C08_real` the per-sample value
+is the pointwise `|·|` of the signed one, so this is `Prog.expect_stationary` with `f = |apply|` -/
+theorem absolute_stationary (p : Cfg n → ℝ) (prog : Cfg n → Prog ℝ (Cfg n))
+    (hinv : ∀ w, ∑ v, p v * (prog v).law w = p w) (S : ImpState ℝ n) :
+    (∑ v₀, p v₀ * (prog v₀).expect (fun σ => sigmaXApply S true σ) = ∑ σ, p σ * |sigmaXApply S false σ|)
+    ∧ (∑ v₀, p v₀ * (prog v₀).expect (fun σ => sigmaYApply S true σ) = ∑ σ, p σ * |sigmaYApply S false σ|)
+    ∧ (∑ v₀, p v₀ * (prog v₀).expect (fun σ => sigmaZApply true σ) = ∑ σ, p σ * |sigmaZApply false σ|) :=
+  ⟨Prog.expect_stationary p prog hinv _, Prog.expect_stationary p prog hinv _, Prog.expect_stationary p prog hinv _⟩
+
+/-- **(c) `absolute=True` on a stationary chain**: for `SigmaX`, `SigmaY`, `SigmaZ` constructed with `absolute=True` the
+per-sample value is `|value with absolute=False|` (`C08_real`, `C08_flag_absolute`), so after `k` sampler passes from a start
+drawn from the exact sampling distribution `p` the expected value is `Σ_σ p(σ)·|apply(σ)|` — the corollary of clause (i) of
+`C08_unbiased_stationary` / `_pos` / `_mixed` (any `f`) with `f = |apply|`, for the complex wavefunction, the positive
+wavefunction and the density matrix.  This is ALL the property states about `absolute=True`.  It is NOT `tr(ρ̂|O|)` in general:
+`|M_X| = 1` on one qubit (`X² = 1`), so `tr(ρ̂|X|) = 1` for every state, while for `ψ = (1, 2)` the samples give
+`1/5·2 + 4/5·1/2 = 4/5` (the `example` below).  (For the diagonal `SigmaZ` the two coincide; nothing is claimed either way.)
+The content beyond `C08_real` is by stationarity only (`Prog.expect_stationary` + `C08_born_stationary`). -/
+theorem C08_unbiased_absolute (am ph : RBM ℝ n hid) (qa qp : PRBM ℝ n hid a) (k : ℕ) :
+    let psiC : Cfg n → C ℝ := fun σ => Wave.psiCplx am ph (fun j => bit (σ j))
+    let psiP : Cfg n → C ℝ := fun σ => Wave.psiPos am (fun j => bit (σ j))
+    let SM := ImpState.mixed (rbmRho qa qp) (rbmProb qa)
+    let EC : (Cfg n → ℝ) → ℝ := fun f => ∑ v₀, bornPure psiC v₀ * (am.gibbsSteps k v₀).expect f
+    let EP : (Cfg n → ℝ) → ℝ := fun f => ∑ v₀, bornPure psiP v₀ * (am.gibbsSteps k v₀).expect f
+    let EM : (Cfg n → ℝ) → ℝ := fun f => ∑ v₀, bornMixed (rbmProb qa) v₀ * (qa.gibbsSteps k v₀).expect f
+    ((EC (fun σ => sigmaXApply (ImpState.pure psiC) true σ) = ∑ σ, bornPure psiC σ * |sigmaXApply (ImpState.pure psiC) false σ|)
+      ∧ (EC (fun σ => sigmaYApply (ImpState.pure psiC) true σ)
+          = ∑ σ, bornPure psiC σ * |sigmaYApply (ImpState.pure psiC) false σ|)
+      ∧ (EC (fun σ => sigmaZApply true σ) = ∑ σ, bornPure psiC σ * |sigmaZApply false σ|))
+    ∧ ((EP (fun σ => sigmaXApply (ImpState.pure psiP) true σ) = ∑ σ, bornPure psiP σ * |sigmaXApply (ImpState.pure psiP) false σ|)
+      ∧ (EP (fun σ => sigmaYApply (ImpState.pure psiP) true σ)
+          = ∑ σ, bornPure psiP σ * |sigmaYApply (ImpState.pure psiP) false σ|)
+      ∧ (EP (fun σ => sigmaZApply true σ) = ∑ σ, bornPure psiP σ * |sigmaZApply false σ|))
+    ∧ ((EM (fun σ => sigmaXApply SM true σ) = ∑ σ, bornMixed (rbmProb qa) σ * |sigmaXApply SM false σ|)
+      ∧ (EM (fun σ => sigmaYApply SM true σ) = ∑ σ, bornMixed (rbmProb qa) σ * |sigmaYApply SM false σ|)
+      ∧ (EM (fun σ => sigmaZApply true σ) = ∑ σ, bornMixed (rbmProb qa) σ * |sigmaZApply false σ|)) := by
+  intro psiC psiP SM EC EP EM
+  exact ⟨absolute_stationary _ _ (fun w => (C08_born_stationary am ph qa k w).1) _,
+    absolute_stationary _ _ (fun w => (C08_born_stationary am am qa k w).2.1) _,
+    absolute_stationary _ _ (fun w => (C08_born_stationary am ph qa k w).2.2.1) _⟩
+
+/-- `absolute=True` does NOT estimate `tr(ρ̂|O|)`: one qubit, `ψ = (ψ(0), ψ(1)) = (1, 2)` (nowhere zero, so `C08_represents_pure`
+applies), `SigmaX`: `|X| = 1`, `tr(ρ̂|X|) = 1`, but the exact average of the `absolute=True` values is `4/5`. -/
+example : let psi : Cfg 1 → C ℝ := fun σ => if σ 0 then (2, 0) else (1, 0)
+    (∀ σ, psi σ ≠ (0, 0))
+    ∧ ∑ σ, bornPure psi σ * |sigmaXApply (ImpState.pure psi) false σ| = 4 / 5 := by
+  intro psi
+  refine ⟨fun σ => by simp only [psi]; split <;> simp, ?_⟩
+  have hsum : ∀ g : Cfg 1 → ℝ, ∑ τ, g τ = g (fun _ => true) + g (fun _ => false) := by
+    intro g
+    rw [← (Equiv.funUnique (Fin 1) Bool).symm.sum_comp, Fintype.sum_bool]
+    rfl
+  simp only [hsum, bornPure]
+  simp [sigmaXApply, ImpState.pure, psi, C.sum, C.div, C.normSq, absIf, flipSpin, Fin.foldl_succ, C.add, C.zero, C.mul,
+    C.conj]
+  norm_num
+
+/-- non-vacuity of `C08_unbiased_absolute`: the concrete two-site complex state, 4 passes, `SigmaY(absolute=True)`. -/
+example : let am : RBM ℝ 2 3 := ⟨fun i j => (i.val : ℝ) - j.val + 0.5, fun j => if j = 0 then -1.5 else 2,
+      fun i => if i = 0 then 0.7 else -0.3⟩
+    let ph : RBM ℝ 2 3 := ⟨fun i j => 0.25 * (i.val : ℝ) + j.val, fun j => if j = 0 then 1 else -2,
+      fun i => if i = 0 then -0.4 else 0.9⟩
+    let psi : Cfg 2 → C ℝ := fun σ => Wave.psiCplx am ph (fun j => bit (σ j))
+    ∑ v₀, bornPure psi v₀ * (am.gibbsSteps 4 v₀).expect (fun σ => sigmaYApply (ImpState.pure psi) true σ)
+      = ∑ σ, bornPure psi σ * |sigmaYApply (ImpState.pure psi) false σ| :=
+  (C08_unbiased_absolute _ _ (⟨fun _ _ => 0, fun _ _ => 0, fun _ => 0, fun _ => 0, fun _ => 0⟩ : PRBM ℝ 2 3 0)
+    ⟨fun _ _ => 0, fun _ _ => 0, fun _ => 0, fun _ => 0, fun _ => 0⟩ 4).1.2.1
 
 end sampler
 
